@@ -6,6 +6,7 @@ CONSTANTS
 INVARIANTS
   ConformCfg ConformView ConformSynced ConformRes ConformOutputs ConformFee SameBytes EngineOk
   TxInvariants TermsAgree ConformScripts
+  PeerInvariants ConformPeerRes ConformPeerOffer ConformNodeMsg ConformLockTime ConformPeerScripts ConformSched
   ConformProposal ConformFinished ConformCache ConformEnd
   Bounded BoundedDefault BothSigned Agree NoStall NoAbort Between
 CHECK_DEADLOCK TRUE
